@@ -19,10 +19,11 @@ pub mod h3s {
       macro m0($p0: ident, $p1: ident) { r1($p0, v0), r1(($p1.clone() + $p0.clone()), ?Some(v1)) }
       macro m1($p0: ident) { r0($p0, v0), let v1 = std::cmp::min((v0.clone() + v0.clone()), 6), m0!(v2, $p0) }
       macro m2($p0: ident) { r7($p0, Some($p0.clone())) }
-      r7(2, Some(v1.clone())) <-- r3(v0, std::cmp::max(v0.clone(), 1), v1), m1!(v0);
-      m2!(v1) <-- r4(v0, _), (m0!(v1, v0) | r2(v1));
-      r5(v1) <-- r1(v0, ?Some(v1)), m1!(v2);
+      r6(v0, Some(1), v0) <-- r2(v0) if (v0.clone() != 4), m0!(v0, v0), m0!(v0, v0);
+      m2!(v1) <-- r4(v0, _), m0!(v0, v0), r2(v1);
+      m2!(v2), r7(3, None::<i64>) <-- r1(v0, ?Some(v1)), (m0!(v2, v1) | r3(v2, (v0.clone() + v0.clone()), v1) if (v2.clone() != 3));
       m2!(v0), r6(v1, Some(v1.clone()), 1) <-- r3(v0, (v0.clone() + 1), v0), m1!(v0), r7(v1, None::<i64>);
+      r5((v1.clone() + 1)) <-- r3(v0, v0, (v0.clone() + 2)), (m1!(v1) | r4(v3, v1)), m1!(v4), if (v1.clone() < 5);
       r4(v1, v0) <-- r1(v0, ?Some(v1)) if (v0.clone() < 2);
    }
    pub struct Inst { p: Prog, pool: Option<ascent::rayon::ThreadPool> }
@@ -66,23 +67,22 @@ pub mod h7s {
       relation r1(i64, Option<i64>);
       relation r2(i64);
       relation r3(i64, i64, i64);
-      relation r4(i64, i64);
-      relation r5(i64, Option<i64>);
+      relation r4(i64, Option<i64>);
+      relation r5(i64, i64, i64);
       relation r6(i64, i64);
-      relation r7(i64);
-      macro m0($p0: ident, $p1: ident) { r6($p0, v0), if ($p0.clone() == 2) }
-      macro m1($p0: ident, $p1: ident) { r0($p0, $p1) }
-      macro m2($p0: ident) { r4($p0, $p0), (r5(v1, v0), r6(v2, $p0) | r5(v3, v0)) }
-      macro m3($p0: ident, $p1: ident, $p2: expr) { r2($p1), for v0 in 1..4, if ($p2 < 1) }
-      macro m4($p0: ident, $p1: expr) { r6(0, $p0), r6($p0, $p1) }
-      macro m5($p0: expr) { r7(3) }
-      m5!(std::cmp::min(std::cmp::min(v0.clone(), 2), 6)), r6(v0, v0) <-- r0(v0, 1), m2!(v0), r3(3, v1, (v0.clone() + 2));
-      r7(v1) <-- r1(v0, ?Some(v1)), (m1!(v2, v4) | r0(v2, v5));
-      m4!(v0, std::cmp::min((v1.clone() + 0), 6)) <-- r4(_, v0), m2!(v1), m2!(v1);
-      r6((v0.clone() + 1), (v1.clone() + 1)) <-- r2(v0), m0!(v1, v0), if (v0.clone() < 5), if (v1.clone() < 5);
-      m5!(std::cmp::min((v2.clone() + v0.clone()), 6)) <-- r0(v0, v1), m0!(v2, v0), m0!(v2, v0);
-      r5(0, None::<i64>) <-- r1(v0, None::<i64>);
-      m5!(1);
+      macro m0($p0: ident, $p1: ident) { r3(v0, $p1, $p0), if ($p1.clone() == 3) }
+      macro m1($p0: ident, $p1: expr) { ((r4($p0, ?Some(v0)), r6(_, v1), if (v1.clone() < v0.clone())) | r3($p0, $p1, v0), if let Some(v2) = Some($p1)), m0!(v3, v4), if ($p0.clone() < 5) }
+      macro m2($p0: ident, $p1: expr) { r4($p0, Some(($p0.clone() + $p0.clone()))) }
+      macro m3($p0: ident, $p1: ident) { r4($p0, ?Some(v0)), if (v0.clone() < $p1.clone()) }
+      macro m4($p0: ident, $p1: expr) { r5(1, $p0, $p1) }
+      macro m5($p0: expr, $p1: ident) { r5($p1, $p1, $p0), r6($p1, $p1) }
+      r5(v1, 1, v2) <-- r2(v0) if (v0.clone() < 0), m3!(v1, v0), m3!(v2, v0);
+      m4!(v0, std::cmp::min(std::cmp::max(v3.clone(), 1), 6)), r5(v0, 0, v3) <-- r1(v0, v1), m0!(v2, v2), m0!(v3, v2);
+      m4!(v1, std::cmp::min(std::cmp::max(v1.clone(), 1), 6)), r5(v0, v2, v0) <-- r4(v0, ?Some(v1)), m3!(v2, v0);
+      m5!(std::cmp::min((v0.clone() + v1.clone()), 6), v0) <-- r2(v0), m0!(v1, v0);
+      m5!(std::cmp::min((v0.clone() + v1.clone()), 6), v1) <-- r3(v0, v1, (v1.clone() + v0.clone())), m3!(v2, v1);
+      m5!(std::cmp::min((v0.clone() + v1.clone()), 6), v1) <-- r2(v0), (m1!(v1, std::cmp::max(v0.clone(), 3)) | r3(v3, v3, v1));
+      r4(v0, Some(v0.clone())) <-- r1(_, ?Some(v0)) if (v0.clone() < 0);
    }
    pub struct Inst { p: Prog, pool: Option<ascent::rayon::ThreadPool> }
    pub fn make(pool: Option<usize>) -> Box<dyn Driver> {
@@ -97,10 +97,9 @@ pub mod h7s {
          1 => { let v: Vec<(i64,Option<i64>,)> = parse_rows(rows)?; if append { self.p.r1.extend(v) } else { self.p.r1 = v } },
          2 => { let v: Vec<(i64,)> = parse_rows(rows)?; if append { self.p.r2.extend(v) } else { self.p.r2 = v } },
          3 => { let v: Vec<(i64,i64,i64,)> = parse_rows(rows)?; if append { self.p.r3.extend(v) } else { self.p.r3 = v } },
-         4 => { let v: Vec<(i64,i64,)> = parse_rows(rows)?; if append { self.p.r4.extend(v) } else { self.p.r4 = v } },
-         5 => { let v: Vec<(i64,Option<i64>,)> = parse_rows(rows)?; if append { self.p.r5.extend(v) } else { self.p.r5 = v } },
+         4 => { let v: Vec<(i64,Option<i64>,)> = parse_rows(rows)?; if append { self.p.r4.extend(v) } else { self.p.r4 = v } },
+         5 => { let v: Vec<(i64,i64,i64,)> = parse_rows(rows)?; if append { self.p.r5.extend(v) } else { self.p.r5 = v } },
          6 => { let v: Vec<(i64,i64,)> = parse_rows(rows)?; if append { self.p.r6.extend(v) } else { self.p.r6 = v } },
-         7 => { let v: Vec<(i64,)> = parse_rows(rows)?; if append { self.p.r7.extend(v) } else { self.p.r7 = v } },
             _ => return None,
          }
          Some(())
@@ -108,7 +107,7 @@ pub mod h7s {
       fn run(&mut self) { match &self.pool { Some(pl) => { let p = &mut self.p; pl.install(|| p.run()) }, None => self.p.run() } }
       fn run_here(&mut self) { self.p.run() }
       fn run_timeout(&mut self, k: usize) -> Option<bool> { let _ = k; None }
-      fn dump(&self) -> String { vec![dump_rel(0, self.p.r0.iter().map(Row::render).collect()), dump_rel(1, self.p.r1.iter().map(Row::render).collect()), dump_rel(2, self.p.r2.iter().map(Row::render).collect()), dump_rel(3, self.p.r3.iter().map(Row::render).collect()), dump_rel(4, self.p.r4.iter().map(Row::render).collect()), dump_rel(5, self.p.r5.iter().map(Row::render).collect()), dump_rel(6, self.p.r6.iter().map(Row::render).collect()), dump_rel(7, self.p.r7.iter().map(Row::render).collect())].join(" | ") }
+      fn dump(&self) -> String { vec![dump_rel(0, self.p.r0.iter().map(Row::render).collect()), dump_rel(1, self.p.r1.iter().map(Row::render).collect()), dump_rel(2, self.p.r2.iter().map(Row::render).collect()), dump_rel(3, self.p.r3.iter().map(Row::render).collect()), dump_rel(4, self.p.r4.iter().map(Row::render).collect()), dump_rel(5, self.p.r5.iter().map(Row::render).collect()), dump_rel(6, self.p.r6.iter().map(Row::render).collect())].join(" | ") }
       fn iters(&self) -> String { format!("iters {}", self.p.scc_iters.iter().map(|x| x.to_string()).collect::<Vec<_>>().join(" ")) }
    }
 }
@@ -125,22 +124,20 @@ pub mod h11s {
       relation r1(i64, Option<i64>);
       relation r2(i64);
       relation r3(i64, i64, i64);
-      relation r4(i64, i64);
-      relation r5(i64);
-      relation r6(i64);
-      relation r7(i64, i64);
-      relation r8(i64, i64);
-      macro m0($p0: ident, $p1: ident, $p2: expr) { r1($p1, Some($p1.clone())), if ($p0.clone() != 5) }
-      macro m1($p0: ident) { r5($p0), m0!($p0, v0, std::cmp::max(v0.clone(), 0)) }
-      macro m2($p0: expr) { r7(1, $p0) }
-      macro m3($p0: expr, $p1: ident) { r7($p1, $p0) }
-      m2!(std::cmp::min((v0.clone() + 0), 6)), r8(v1, v1) <-- r0(v0, v1), m1!(v0), m1!(v0);
-      m3!(std::cmp::min(std::cmp::min(v0.clone(), 2), 6), v0) <-- r8(v0, v0), m1!(v0);
-      m3!(std::cmp::min(std::cmp::max(v0.clone(), 1), 6), v0) <-- r2(_), m1!(v0);
-      m2!(std::cmp::min(std::cmp::min(v0.clone(), 3), 6)), r8(v1, v2) <-- r5(v0), m1!(v1), m1!(v2);
-      m3!(std::cmp::min(std::cmp::min(v0.clone(), 1), 6), v0), r6(v0) <-- r5(0), (m1!(v0) | r7(_, v0));
-      r5((v0.clone() + 1)) <-- r3(v0, std::cmp::min(v0.clone(), 3), _), if (v0.clone() < 5);
-      m2!(0);
+      relation r4(i64);
+      relation r5(i64, i64, i64);
+      relation r6(i64, Option<i64>);
+      relation r7(i64, i64, i64);
+      macro m0($p0: ident, $p1: ident, $p2: expr) { (r7($p1, std::cmp::max($p1.clone(), 0), v0) | r6($p1, ?Some(v0))) }
+      macro m1($p0: ident, $p1: expr) { (r1($p0, v0) | (r7(v2, $p0, v1) | r5($p0, v1, v2), r5(2, v3, v4) | r7(v1, $p0, v2)), !r0($p1, _)), r0($p0, v5), if ($p1 <= 3) }
+      macro m2($p0: ident) { r6($p0, None::<i64>), if ($p0.clone() == 2), r4($p0), m0!($p0, $p0, std::cmp::max($p0.clone(), 2)), if ($p0.clone() <= 2) }
+      macro m3($p0: ident) { r5($p0, $p0, $p0), r5(2, 0, $p0) }
+      macro m4($p0: ident, $p1: expr) { r7(3, $p1, 3), m3!($p0) }
+      m4!(v0, std::cmp::min((v1.clone() + v1.clone()), 6)) <-- r7(_, v0, v1), m0!(v0, v2, v0.clone() + 1), m0!(v0, v2, v1.clone() + 1);
+      m4!(v1, std::cmp::min(std::cmp::max(v1.clone(), 1), 6)) <-- r7(v0, _, v0), m0!(v0, v1, std::cmp::max(v0.clone(), 2));
+      r7(v0, v0, v1) <-- r2(v0) if (v0.clone() == 4), m1!(v0, std::cmp::min(v0.clone(), 4)), r1(v1, v2);
+      r7(1, 1, v0) <-- r1(v0, _), m0!(v0, v0, std::cmp::max(v0.clone(), 2)), m0!(v0, v0, std::cmp::max(v0.clone(), 0));
+      r4(v0) <-- r1(v0, v1);
    }
    pub struct Inst { p: Prog, pool: Option<ascent::rayon::ThreadPool> }
    pub fn make(pool: Option<usize>) -> Box<dyn Driver> {
@@ -155,11 +152,10 @@ pub mod h11s {
          1 => { let v: Vec<(i64,Option<i64>,)> = parse_rows(rows)?; if append { self.p.r1.extend(v) } else { self.p.r1 = v } },
          2 => { let v: Vec<(i64,)> = parse_rows(rows)?; if append { self.p.r2.extend(v) } else { self.p.r2 = v } },
          3 => { let v: Vec<(i64,i64,i64,)> = parse_rows(rows)?; if append { self.p.r3.extend(v) } else { self.p.r3 = v } },
-         4 => { let v: Vec<(i64,i64,)> = parse_rows(rows)?; if append { self.p.r4.extend(v) } else { self.p.r4 = v } },
-         5 => { let v: Vec<(i64,)> = parse_rows(rows)?; if append { self.p.r5.extend(v) } else { self.p.r5 = v } },
-         6 => { let v: Vec<(i64,)> = parse_rows(rows)?; if append { self.p.r6.extend(v) } else { self.p.r6 = v } },
-         7 => { let v: Vec<(i64,i64,)> = parse_rows(rows)?; if append { self.p.r7.extend(v) } else { self.p.r7 = v } },
-         8 => { let v: Vec<(i64,i64,)> = parse_rows(rows)?; if append { self.p.r8.extend(v) } else { self.p.r8 = v } },
+         4 => { let v: Vec<(i64,)> = parse_rows(rows)?; if append { self.p.r4.extend(v) } else { self.p.r4 = v } },
+         5 => { let v: Vec<(i64,i64,i64,)> = parse_rows(rows)?; if append { self.p.r5.extend(v) } else { self.p.r5 = v } },
+         6 => { let v: Vec<(i64,Option<i64>,)> = parse_rows(rows)?; if append { self.p.r6.extend(v) } else { self.p.r6 = v } },
+         7 => { let v: Vec<(i64,i64,i64,)> = parse_rows(rows)?; if append { self.p.r7.extend(v) } else { self.p.r7 = v } },
             _ => return None,
          }
          Some(())
@@ -167,13 +163,13 @@ pub mod h11s {
       fn run(&mut self) { match &self.pool { Some(pl) => { let p = &mut self.p; pl.install(|| p.run()) }, None => self.p.run() } }
       fn run_here(&mut self) { self.p.run() }
       fn run_timeout(&mut self, k: usize) -> Option<bool> { let _ = k; None }
-      fn dump(&self) -> String { vec![dump_rel(0, self.p.r0.iter().map(Row::render).collect()), dump_rel(1, self.p.r1.iter().map(Row::render).collect()), dump_rel(2, self.p.r2.iter().map(Row::render).collect()), dump_rel(3, self.p.r3.iter().map(Row::render).collect()), dump_rel(4, self.p.r4.iter().map(Row::render).collect()), dump_rel(5, self.p.r5.iter().map(Row::render).collect()), dump_rel(6, self.p.r6.iter().map(Row::render).collect()), dump_rel(7, self.p.r7.iter().map(Row::render).collect()), dump_rel(8, self.p.r8.iter().map(Row::render).collect())].join(" | ") }
+      fn dump(&self) -> String { vec![dump_rel(0, self.p.r0.iter().map(Row::render).collect()), dump_rel(1, self.p.r1.iter().map(Row::render).collect()), dump_rel(2, self.p.r2.iter().map(Row::render).collect()), dump_rel(3, self.p.r3.iter().map(Row::render).collect()), dump_rel(4, self.p.r4.iter().map(Row::render).collect()), dump_rel(5, self.p.r5.iter().map(Row::render).collect()), dump_rel(6, self.p.r6.iter().map(Row::render).collect()), dump_rel(7, self.p.r7.iter().map(Row::render).collect())].join(" | ") }
       fn iters(&self) -> String { format!("iters {}", self.p.scc_iters.iter().map(|x| x.to_string()).collect::<Vec<_>>().join(" ")) }
    }
 }
 
 #[allow(unused, non_snake_case, clippy::all)]
-pub mod a3s {
+pub mod a1s {
    use ascent::*;
    use ascent::aggregators::*;
    use ascent::lattice::{Dual, set::Set};
@@ -184,9 +180,8 @@ pub mod a3s {
       relation r1(i64);
       relation r2(i64, i64);
       relation r3(i64);
-      macro m0($p0: ident) { r0(v0, $p0) if (v0.clone() != 0) }
-      macro m1($p0: ident) { r1(v1), m0!($p0) }
-      r2(v0, v2) <-- r1(v0), m1!(v2);
+      macro m0($p0: ident) { r0(v0, $p0) if (1 < $p0.clone()) }
+      r2(v0, v1) <-- r1(v0), m0!(v1);
       r3(v0) <-- r2(v0, _);
    }
    pub struct Inst { p: Prog, pool: Option<ascent::rayon::ThreadPool> }
@@ -215,7 +210,7 @@ pub mod a3s {
 }
 
 #[allow(unused, non_snake_case, clippy::all)]
-pub mod e3s {
+pub mod e1s {
    use ascent::*;
    use ascent::aggregators::*;
    use ascent::lattice::{Dual, set::Set};
@@ -226,8 +221,8 @@ pub mod e3s {
       relation r1(i64);
       relation r2(i64, i64);
       relation r3(i64);
-      macro m0($p0: ident, $p1: expr) { r0(v0, $p0), if ((v0.clone() * $p1) < 4) }
-      r2(v0, v1) <-- r1(v0), m0!(v1, (v0.clone() + 2));
+      macro m0($p0: ident, $p1: expr) { r0(v0, $p0), if ((6 - $p1) < 8) }
+      r2(v0, v1) <-- r1(v0), m0!(v1, v0.clone() + 2);
       r3(v0) <-- r2(v0, _);
    }
    pub struct Inst { p: Prog, pool: Option<ascent::rayon::ThreadPool> }
@@ -256,7 +251,7 @@ pub mod e3s {
 }
 
 #[allow(unused, non_snake_case, clippy::all)]
-pub mod o2s {
+pub mod o0s {
    use ascent::*;
    use ascent::aggregators::*;
    use ascent::lattice::{Dual, set::Set};
@@ -267,7 +262,7 @@ pub mod o2s {
       relation r1(i64);
       relation r2(i64, i64);
       relation r3(i64);
-      macro m0($p0: ident) { r0($p0, ?Some(v0)), if (v0.clone() <= 3) }
+      macro m0($p0: ident) { r0($p0, ?None) }
       r3(v0) <-- r1(v0), m0!(v0);
       r2(v0, v0) <-- r3(v0);
    }
@@ -297,5 +292,5 @@ pub mod o2s {
 }
 
 fn main() {
-   common::main_loop(&[("h3s", h3s::make as common::Factory), ("h7s", h7s::make as common::Factory), ("h11s", h11s::make as common::Factory), ("a3s", a3s::make as common::Factory), ("e3s", e3s::make as common::Factory), ("o2s", o2s::make as common::Factory)]);
+   common::main_loop(&[("h3s", h3s::make as common::Factory), ("h7s", h7s::make as common::Factory), ("h11s", h11s::make as common::Factory), ("a1s", a1s::make as common::Factory), ("e1s", e1s::make as common::Factory), ("o0s", o0s::make as common::Factory)]);
 }
